@@ -1556,11 +1556,18 @@ class Tie:
                     d = kv(ln)[2]
                     tr = [t.split(":") for t in d["tr"].split(";")] if d["tr"] != "-" else []
                     io = [t.split(":") for t in d.get("io", "-").split(";")] if d.get("io", "-") != "-" else []
-                    if any(t[0] in "kd" and t[5] == "2" for t in tr) or "OVERFLOW" in d["tr"] or "OVERFLOW" in d.get("io", ""):
-                        break                      # decoder error / overflowing trace: outside the input-side model
+                    if "OVERFLOW" in d["tr"] or "OVERFLOW" in d.get("io", ""):
+                        break                      # overflowing trace
+                    rdj = reads[j]
+                    herej = "read #%d decompress(dst, %d, %d) [archive %s: %d bytes, maxFrameSize %d, checksumFlag %d; history %s]" % (
+                        j, rdj[2], rdj[1], tag, n, mfs, cf, " ; ".join("%s %s %s" % c for c in cmds[:cmds.index(rdj) + 1][-8:]))
                     last_fail = io[-1] if io and io[-1][-2 if io[-1][0] == "I" else -1] == "0" else None
-                    if d["ret"].startswith("E") and last_fail is None:
-                        break                      # no-progress / checksum error: not an I/O event
+                    # the archive is valid and (input_stream_is_the_file) the decoder is fed the frame's bytes whatever I/O failed before:
+                    # the only legitimate error is seekableIO from an injected I/O failure during this very call
+                    if any(t[0] in "kd" and t[5] == "2" for t in tr):
+                        raise Fail("%s: ZSTD_decompressStream reports an error (%s) on a valid archive" % (herej, d["ret"]))
+                    if d["ret"].startswith("E") and (last_fail is None or d["ret"] != "E102"):
+                        raise Fail("%s: returns %s on a valid archive although no I/O request of this call failed" % (herej, d["ret"]))
                     segs, cur = [], None
                     for t in tr:
                         if t[0] == "R":
@@ -1604,6 +1611,64 @@ class Tie:
                 self.report(replay, "input side (src.seek / src.read requests, zs->in refills): " + str(e))
             except (IndexError, KeyError, ValueError, RuntimeError) as e:
                 self.report(replay, "input side: unparsable output / model failure (%r)" % (e,), no_input=True)
+
+    K_STALE = "C20-corruption-return-keeps-position"
+
+    def phase_r3_history_independence(self):
+        """Malformed archives (a seek-table entry announcing more decompressed bytes than its frame holds; checksums on and off): every
+        read of a history is also made on a FRESH reader.  A call the fresh reader answers with an error must not succeed on the reader
+        that carries a history (it has no more information - only a stale position), and where both succeed the bytes must be equal."""
+        ctx, rng = self.ctx, self.rng
+        x = bytes(range(0x30, 0x30 + 48))
+        xp = self.blob(x, "x")
+        for cf in (1, 0):
+            ap = self.path("r3hi_%d.zst" % cf)
+            rc0, cl0, _ = self.run_c("\n".join(["content_file %s" % xp, "cinit 3 %d 16" % cf, "finish 1000 1000", "save %s" % ap]) + "\n", timeout=30)
+            arch = open(ap, "rb").read() if rc0 == 0 and os.path.exists(ap) else b""
+            spe_ = 12 if cf else 8
+            ts = len(arch) - (17 + 4 * spe_)
+            if len(arch) < 60 or arch[ts:ts + 4] != struct.pack("<I", 0x184D2A5E):
+                self.report(dict(kind="r3", scenario="history-independence", cf=cf, rc=rc0, seed=ctx.seed), "could not build the base archive", no_input=True)
+                continue
+            for (ent, grow) in ((0, 8), (1, 8), (0, 1), (1, 16), (2, 3)):
+                pos = ts + 8 + ent * spe_ + 4
+                newd = struct.unpack("<I", arch[pos:pos + 4])[0] + grow
+                hists = [[(0, 16 + grow), (16, 4), (20, 3), (16 + grow, 8)]] if (ent, grow) == (0, 8) else []
+                for _ in range(3 if ctx.quick else 12):
+                    h = []
+                    for _ in range(rng.randint(3, 7)):
+                        o = rng.choice([0, 16 * ent, 16 * ent + 15, 16 * ent + 16, 16 * ent + 16 + grow, rng.randint(0, 48 + grow)])
+                        h.append((o, rng.choice([1, 3, 4, grow, 16, 16 + grow, rng.randint(0, 48)])))
+                    hists.append(h)
+                for h in hists:
+                    head = ["archive_file %s" % ap, "setbytes %d %s" % (pos, struct.pack("<I", newd).hex())]
+                    text = head + ["open mem"] + ["r %d %d" % r for r in h] + ["close"]
+                    for r in h:
+                        text += ["open mem", "r %d %d" % r, "close"]
+                    rc, cl, cerr = self.run_c("\n".join(text) + "\n", timeout=60, linebuf=True)
+                    replay = dict(kind="r3", scenario="history-independence", cf=cf, entry=ent, grow=grow, archive_hex=arch.hex(), history=[list(r) for r in h],
+                                  commands=text, rc=rc, seed=ctx.seed)
+                    try:
+                        rl = [l for l in cl if l.startswith("r ")]
+                        if rc != 0 or len(rl) != 2 * len(h):
+                            raise Fail("crash / hang (rc=%d): %s" % (rc, (cerr or "")[-300:]))
+                        for j, r in enumerate(h):
+                            ds, df = kv(rl[j])[2], kv(rl[len(h) + j])[2]
+                            es, ef = ds["ret"].startswith("E"), df["ret"].startswith("E")
+                            if (ef and not es) or (not ef and not es and (ds["ret"] != df["ret"] or ds.get("crc") != df.get("crc"))):
+                                self.report(dict(replay, failing_read=j),
+                                            "malformed archive (content 30..5f, initCStream(3, checksumFlag %d, maxFrameSize 16); seek-table entry %d: decompressed size %d -> %d, "
+                                            "the frame holds %d bytes): after the history [%s] decompress(dst, %d, %d) returns %s with bytes %s; the same call on a fresh reader "
+                                            "returns %s%s. The earlier call that reported the corruption left curFrame / decompressedOffset claimed while the decoder had "
+                                            "finished the frame: the continue path decodes the NEXT frame of the file as the rest of this one"
+                                            % (cf, ent, newd - grow, newd, newd - grow, " ; ".join("r %d %d" % q for q in h[:j]), r[1], r[0], ds["ret"], ds.get("data", "?"),
+                                               df["ret"], "" if ef else " with bytes " + df.get("data", "?")), key=self.K_STALE)
+                                break
+                            ctx.count(("r3-hist", cf, ent, es, ef))
+                    except Fail as e:
+                        self.report(replay, "history independence on a malformed archive: " + str(e))
+                    except (IndexError, KeyError, ValueError) as e:
+                        self.report(replay, "history independence: unparsable output (%r)" % (e,), no_input=True)
 
     def phase_r2_raw_frames(self):
         """Archives assembled with the documented raw API (independently compressed frames + ZSTD_seekable_logFrame +
@@ -1914,7 +1979,7 @@ def replay(ctx):
         {"reinit-modes": t.phase_r2_reinit_modes, "checksum-flag": t.phase_r2_checksum_flag, "beyond-end": t.phase_r2_beyond_end,
          "raw-frames": t.phase_r2_raw_frames, "misc": t.phase_r2_misc}.get(rp.get("scenario"), t.phase_r2_endframe_pending)()
     elif kind == "r3":
-        {"numframes-wrap": t.phase_r3_numframes_wrap, "input-side": t.phase_r3_input_side}.get(rp.get("scenario"), t.phase_r3_numframes_wrap)()
+        {"numframes-wrap": t.phase_r3_numframes_wrap, "input-side": t.phase_r3_input_side, "history-independence": t.phase_r3_history_independence}.get(rp.get("scenario"), t.phase_r3_numframes_wrap)()
     elif kind == "corrupt" and rp.get("archive_hex") is not None:
         v = dict(s=None, arch=bytes.fromhex(rp["archive_hex"]), cls="J", note=rp.get("note", ""), log=[], cf=0, id="k0", mode=rp.get("mode") or "mem",
                  reads=[tuple(r) for r in rp.get("reads", [])])
@@ -1946,7 +2011,7 @@ def run(ctx):
     r = ctx.prove()
     t = Tie(ctx, rng)
     import time as _time
-    for ph in (t.phase_rawtable, t.phase_overlong_frame, t.phase_short_frame, t.phase_io_fault, t.phase_reinit, t.phase_r2_endframe_pending, t.phase_r2_reinit_modes, t.phase_r2_checksum_flag, t.phase_r2_beyond_end, t.phase_r2_misc, t.phase_r2_raw_frames, t.phase_r3_numframes_wrap, t.phase_r3_input_side, t.phase_archives, t.phase_corrupt, t.phase_maxframes):
+    for ph in (t.phase_rawtable, t.phase_overlong_frame, t.phase_short_frame, t.phase_io_fault, t.phase_reinit, t.phase_r2_endframe_pending, t.phase_r2_reinit_modes, t.phase_r2_checksum_flag, t.phase_r2_beyond_end, t.phase_r2_misc, t.phase_r2_raw_frames, t.phase_r3_numframes_wrap, t.phase_r3_input_side, t.phase_r3_history_independence, t.phase_archives, t.phase_corrupt, t.phase_maxframes):
         t0 = _time.time()
         ph()
         core.log("C20 %s: %.1fs (evaluations so far %d)" % (ph.__name__, _time.time() - t0, ctx.cov["evaluations"]))
